@@ -60,8 +60,15 @@ func (c *oracleCtx) check(id string, nontrivial bool, f func() string) {
 
 var oracles = map[string]func(*oracleCtx){}
 
+// wrappers applied after every file's init has registered its oracles
+var oraclesLate []func()
+
 func TestVerifOracle(t *testing.T) {
 	id := os.Getenv("VERIF_ORACLE")
+	for _, f := range oraclesLate {
+		f()
+	}
+	oraclesLate = nil
 	o := oracles[id]
 	if o == nil {
 		t.Skip("no oracle for " + id)
